@@ -39,6 +39,9 @@ NUMSTRS += ["0x2000000000000101", "0x10000000000000801", "0x1fffffffffffff7f", "
             "0b" + "1" * 54 + "01", "0b1" + "0" * 52 + "101", "0o400000000000000005", "0o1000000000000000021", "0x" + "f" * 300, "0x1" + "0" * 255, "0x" + "8" * 257,
             "9007199254740993", "9007199254740995", "18014398509481985", "1.00000000000000011102230246251565404236316680908203125", "4.9e-324", "2.4703282292062327e-324", "2.4703282292062328e-324",
             "1.7976931348623158e308", "1.7976931348623159e308", "179769313486231580793728971405303415079934132710037826936173778980444968292764750946649017977587207096330286416692887910946555547851940402630657488671505820681908902000708383676273854845817711531764475730270069855571366959622842914819860834936475292719074168444365510704342711559699508093042880177904174497791.999"]
+NUMSTRS += ["0x+10", "0b+1", "0x-1", "0o+7", "0X+fF", " 0X+0 ", "0x+", "0x 1", "12٣", "2²", "1.5٢", "3e٥", "1½", "1٠", "１２", "1e٣", "٣", "1٣e2", "0x1٣", "1.٣", "- 1", "1e+٣"]
+NUMS += [0.3, 0.30000000000000004, 1.0000000000000002, 0.9999999999999999, 1e301, 2e38, 3e38, -1e300, -1e301, 1.7014118346046923e38, 1.7014118346046925e38, 4.000000000000001, 4.0, 1e-6, 1.5e-6, 9.999e-6, 1e-5,
+         0.1 + 0.2, 2.2250738585072014e-308, 2.225073858507201e-308, 1e23, 9.999999999999999e22]
 STRS = ["abc", "a", "b", "A", "null", "true", "false", "[object Object]", "1,2", ",", "é", "éa", "€", "😀", "a😀b", "zz", "10", "9",
         "a.b", "a\\.b", "undefined"]
 ARRS = [[], [0], [1], [[]], [None], [1, 2], ["a", "b"], [[1, 2], [3]], [1.5], [{}], ["1"], [" 1 "], [True], [[1]], ["a"], [None, None],
@@ -112,7 +115,7 @@ class Gen:
 
     def key(self):
         r = self.r
-        return r.choice(["a", "b", "c", "x", "0", "1", "-1", "a.b", "é", "", "current", "accumulator", "var", "+", "k\\", "01"])
+        return r.choice(["a", "b", "c", "x", "0", "1", "-1", "a.b", "é", "", "current", "accumulator", "var", "+", "k\\", "01", "a/b", "x~1y", "~0", "/", "//", "#", "1.5", "a b"])
 
     def opshaped_value(self):
         r = self.r
@@ -147,7 +150,7 @@ class Gen:
     # ------------------------------------------------------------ random rules
     def path(self):
         r = self.r
-        return r.choice(["a", "b", "x", "l", "s", "a.b", "l.0", "l.-1", "s.0", "zz", "a.b.c", "", "l.1", "secret", "a\\.b", "l.9", "s.-1", "0", "-1", "1"])
+        return r.choice(["a", "b", "x", "l", "s", "a.b", "l.0", "l.-1", "s.0", "zz", "a.b.c", "", "l.1", "secret", "a\\.b", "l.9", "s.-1", "0", "-1", "1", "a/b", "x~1y", "a/0", "l/0", "s.0.0"])
 
     def rule(self, depth=3, want=None, paths=None):
         """type-directed random rule; `want` in {None,'num','str','arr','bool'}"""
